@@ -110,11 +110,20 @@ theorem bool_other_null (s : List Char) (h1 : lower s ≠ "true".toList) (h2 : l
   unfold castStrBool; rw [if_neg h1, if_neg h2]
 
 -- OBLIGATION: PysparklingVerif.C18.cast_null_is_null
-/-- casting null yields null for every target type except string (see `cast_null_string_witness`) -/
-theorem cast_null_is_null (f t : Ty) (h : t ≠ .string) : castNull f t = some none := by
+/-- casting null yields null for every pair of types the caster accepts (atomic types, binary, decimal, arrays, maps,
+structs) and every target type except string (see the example below) -/
+theorem cast_null_is_null (f t : Ty) (h : t ≠ .string) (hc : castable f t = true) : castNull f t = some none := by
   unfold castNull; split
   · rfl
-  · cases t <;> simp_all
+  · rw [hc]; cases t <;> simp_all
+
+-- OBLIGATION: PysparklingVerif.C18.cast_null_accepted
+/-- … and the accepted pairs include every cast between two arrays, two maps, two structs, string to binary, and
+every cast to an atomic type or decimal: none of these may fail on a null -/
+theorem cast_null_accepted (f t : Ty) :
+    ((f.isArray ∧ t.isArray) ∨ (f.isMap ∧ t.isMap) ∨ (f.isStruct ∧ t.isStruct) ∨ (f = .string ∧ t = .binary) ∨
+      (t ≠ .binary ∧ !t.isArray ∧ !t.isMap ∧ !t.isStruct)) → castable f t = true := by
+  cases f <;> cases t <;> decide
 
 /-- KNOWN FINDING (pinned by the repo's test_cast_null_to_string): the model, like the code,
 turns a null into the four-character string "null" when the target is string. -/
